@@ -69,6 +69,36 @@ def check_C45(tier):
     return rep.finish()
 
 
+def _replay_c36_host(payload):
+    """A C36 violation found in a host engine's workload: replay that engine's case on the module rebuilt with the sanitizers,
+    in an interpreter that has the sanitizer runtimes preloaded.  The module is built first by an unsanitized run (gcc must
+    not run under LD_PRELOAD=libasan), the sanitized run then finds it in the build cache."""
+    import tempfile
+    host = {"E3": "C23", "E3b": "C23", "E4": "C22", "E5": "C35", "E11": "C35", "E6": "C14", "E8": "C37"}.get(payload.get("engine_host"))
+    if host is None or payload.get("engine_host") in ("E6", "E8"):
+        raise core.HarnessError("no sanitized replay for host engine %r" % (payload.get("engine_host"),))
+    p2 = dict(payload, property=host, cflags=list(ASAN_CFLAGS), klass="crash")
+    if payload.get("engine_host") == "E3b":
+        p2["family"] = "E3b"
+    if payload.get("engine_host") == "E11":
+        p2["family"] = "E11"
+    core.workdir()
+    fd, path = tempfile.mkstemp(suffix=".json", dir=core.workdir())
+    with os.fdopen(fd, "w") as f:
+        json.dump(p2, f)
+    env0 = dict(os.environ)
+    subprocess.run([sys.executable, "-m", "simkit", "replay", path], env=env0, cwd=core.VERIF, capture_output=True)      # builds (and may crash)
+    logdir = os.path.join(core.workdir(), "sanlogs-replay")
+    os.makedirs(logdir, exist_ok=True)
+    env = dict(env0, LD_PRELOAD=_san_lib("libasan.so") + ":" + _san_lib("libubsan.so"), PYTHONMALLOC="malloc",
+               ASAN_OPTIONS="detect_leaks=0:abort_on_error=1:allocator_may_return_null=1:log_path=%s/asan" % logdir,
+               UBSAN_OPTIONS="halt_on_error=1:abort_on_error=1:log_path=%s/ubsan" % logdir)
+    r = subprocess.run([sys.executable, "-m", "simkit", "replay", path], env=env, cwd=core.VERIF, capture_output=True, text=True)
+    reports = _san_reports(logdir, 0)
+    print("replayed %s case under sanitizers: exit %s %s" % (payload.get("engine_host"), r.returncode, (reports[0][:300].replace("\n", " ") if reports else r.stdout.strip()[-200:])))
+    return r.returncode == 1
+
+
 def _replay_e3_traced(ms, h, mode):
     from . import tracemon
     sut, model, sm = e3_gen.load_pair(ms)
@@ -103,7 +133,7 @@ def replay(payload):
     core.stage()
     prop = payload["property"]
     if prop == "C36" and not payload.get("corpus"):
-        raise core.HarnessError("C36 replays of host-engine cases: re-run the host engine's replay under the sanitizer environment")
+        return _replay_c36_host(payload)
     if prop == "C45" and payload.get("family") == "E11":
         from . import e11_pyx
         return e11_pyx.replay(payload, "trace", cflags=TRACE_CFLAGS, directives=TRACE_DIRECTIVES)
@@ -169,6 +199,8 @@ def replay(payload):
             want = rider_corpus.model_case(payload["case"])
             print("replayed corpus case against the model: %s %s (python: %s)" % (st, r, want))
             return st != "ok" or r != want
+        if prop == "C36" and payload.get("case") is None:
+            raise core.HarnessError("this corpus replay names no single case (the crash needed a combination of cases)")
         if prop == "C36":
             # one corpus case under the sanitizers, in a sanitized interpreter
             cname, cso = rider_corpus.build_cell("asan", ASAN_CFLAGS)
@@ -395,7 +427,8 @@ def check_C36(tier):
         rep.evaluations += len(r)
         rep.probes["corpus_cases_under_sanitizers"] = len(r)
     else:
-        note("corpus", -1, {"klass": "crash", "detail": {"status": st, "info": r}, "corpus": True}, None)
+        case = rider_corpus.find_crashing_case(cso, cname, seed)
+        note("corpus", -1, {"klass": "crash", "detail": {"status": st, "info": r}, "corpus": True, "case": case}, None)
     core.replay_known(prop, replay, rep)
     rep.probes["sanitizer_runtime_loaded"] = int("libasan" in os.environ.get("LD_PRELOAD", ""))
     reports = _san_reports(logdir, t0) if logdir else []
